@@ -28,13 +28,13 @@ PLANS = {
     "C03": plan(shards(20, 300)),
     "C04": plan(shards(20, 300, mode="light", n=10), shards(20, 300, mode="actor", n=3), shards(25, 300, mode="stack", n=3)),
     "C05": plan(shards(20, 300)),
-    "C06": plan(shards(20, 360, mode="images", n=12), shards(15, 240, mode="kill", n=2), shards(20, 300, mode="upgrade", n=1), shards(20, 300, mode="node", n=1), tool("memcheck.sh", ["C06"], 3000)),
+    "C06": plan(shards(20, 360, mode="images", n=11), shards(15, 240, mode="kill", n=2), shards(20, 300, mode="upgrade", n=1), shards(20, 300, mode="node", n=1), shards(20, 300, mode="actor", n=1), tool("memcheck.sh", ["C06"], 3000)),
     "C07": plan(shards(15, 240, n=15), shards(15, 240, mode="api", n=1)),
     "C08": plan(shards(20, 300)),
     "C09": plan(shards(20, 300), tool("miri.sh", ["c09"], 3000), tool("memcheck.sh", ["C09"], 3000)),
     "C10": plan(shards(30, 480, mode="script", n=10), shards(20, 300, mode="faults", n=3),
                 shards(12, 120, mode="shutdown-race", n=1), shards(20, 240, mode="net", n=2), shards(20, 240, mode="stack", n=1)),
-    "C11": plan(shards(20, 360, mode="two", n=10), shards(20, 360, mode="three", n=3), shards(20, 300, mode="net", n=3)),
+    "C11": plan(shards(20, 360, mode="two", n=9), shards(20, 360, mode="three", n=3), shards(20, 300, mode="net", n=2), shards(20, 300, mode="live", n=2)),
     "C12": plan(shards(20, 300, n=14), shards(20, 300, mode="stack", n=2), tool("miri.sh", ["c12"], 3000), tool("tsan.sh", ["C12"], 3000)),
     "C13": plan(shards(15, 240)),
     "C14": plan(shards(20, 300, n=14), shards(15, 240, mode="api", n=2), tool("tsan.sh", ["C14"], 3000)),
@@ -73,7 +73,7 @@ RULES = {
            "flush, scans, document removal); images: after every call, at every internal store access with the age-based commit "
            "forced at every access / at one access, and SIGKILLed child processes running 400-call histories. non-trivial = history "
            "containing a call that both prunes and writes (images), a kill that hit a running history (kill); distinct = hash of the history / kill point. "
-           "upgrade mode: the stored history is copied into a file of the redb-2.x on-disk format (with or without derived tables) and opened by a child that strace kills on entry to its k-th file-system call (all calls when <= 32 quick / 400 thorough, else a sample plus every rename / link / unlink); each kill point is one evaluation. node mode: a child does what a persistent docs node does when it starts (open the store, start the store actor, load or create the default author) and then follows a script of 1..5 steps (create an author and make it the default with or without a flush in between, flush, restart); strace kills it at the n-th call of every file-system call name (all when <= 48 quick / 600 thorough, else every call naming a path plus a sample); after each kill the node is started twice on what is left: it must start, its default author must be in the store and be the acknowledged one or the one being set.",
+           "upgrade mode: the stored history is copied into a file of the redb-2.x on-disk format (with or without derived tables) and opened by a child that strace kills on entry to its k-th file-system call (all calls when <= 32 quick / 400 thorough, else a sample plus every rename / link / unlink); each kill point is one evaluation. node mode: a child does what a persistent docs node does when it starts (open the store, start the store actor, load or create the default author) and then follows a script of 1..5 steps (create an author and make it the default with or without a flush in between, flush, restart); strace kills it at the n-th call of every file-system call name (all when <= 48 quick / 600 thorough, else every call naming a path plus a sample); after each kill the node is started twice on what is left: it must start, its default author must be in the store and be the acknowledged one or the one being set. actor mode: the histories of the images mode issued as requests to a store actor over a database file; images inside the store-access callback (actor thread; with and without the age-based commit forced at every access), after every acknowledged flush_store (everything before it must be there) and after shutdown returned with the store still alive (the final state must be there).",
     "C07": "case = 4..30 random steps over three documents (import read/write, open, close, reopen, local insert/delete, valid remote "
            "insert, export, foreign merge), through the store (2/3) or the actor (1/3). non-trivial = a read capability was upgraded; distinct = hash of the trace."
            " api mode: one complete docs node driven through its client layer (DocsApi / Doc): 8..40 calls over two documents and three authors (import read / write, open, close of a client handle, calls through a closed handle, set_bytes / set_hash / del under the clock hook, start_sync / share(read|write) / leave, subscribe, drop_doc, author delete / import, list, get_exact), every reply, status() after every step and the whole content at one step in four compared with a sequential specification; each run judges the clauses of its own property (C14: handle counting, sync switch, gating, replies; C07: capabilities, tickets, listing; C16: drop_doc). non-trivial there = a call was refused and a document was dropped or upgraded.",
@@ -95,7 +95,7 @@ RULES = {
            "net mode: a complete docs node (engine, router, real net::handle_connection) on loopback against a hand-driven peer: 4..12 steps of "
            "request / hold / continue / kill a session, end a declined connection orderly, abruptly, by reset or by stop, pauses; judged at the "
            "boundary: a request accepted while an earlier accepted session is held and then still answers, more end-of-session events than "
-           "accepted sessions, a decline after every accepted session was reported finished, a request for a document not being synced not declined as NotFound. non-trivial = a request declined while a session is held.",
+           "accepted sessions, a decline after every accepted session was reported finished, a request for a document not being synced not declined as NotFound. non-trivial = a request declined while a session is held. live mode: two complete nodes running by themselves plus up to 48 peers that do not exist; 3..10 steps of start_sync with a burst of 1..48 such peers, with the other node, imports by ticket, writes, leave; after every step and until nothing is in flight the running actors are asked (hook H8) for the slots of the document and their tasks in flight: slots busy with a dial <= dial tasks, slots busy with an accepted session <= accept tasks, all idle when nothing is in flight.",
     "C12": "case = 5..25 steps on one store actor: subscribe / unsubscribe / drop receiver (<=4 subscribers), policy change, local insert / "
            "delete, single remote entry (direct or as message; valid, superseded, forged), multi-entry messages with forged entries, "
            "sessions with a local write between two messages, another document borrowing a subscriber channel and being closed. non-trivial = subscriber churn happened and events were produced; distinct = hash of the trace."
